@@ -7,7 +7,7 @@ REAL = ["core (Location, IndexedState, LinearState, PatternIndex, TermIndex, que
 STUB_COMMON = ["SimStorage wrapper (journal, latency, error and crash injection) around the real back end",
                "fake clock of testing/synctest (go1.26.8)"]
 
-def tiers(q_runs, q_budget, t_runs, t_budget, race=None, **kw):
+def tiers(q_runs, q_budget, t_runs, t_budget, race=None, prace=None, **kw):
     """race=(quick runs, quick budget, thorough runs, thorough budget[, worlds]) adds a second phase: the same
     worlds in a -race binary under the pipe-gate scheduler (see sim/simrt)."""
     q = dict(runs=q_runs, budget_s=q_budget, **kw)
@@ -16,6 +16,11 @@ def tiers(q_runs, q_budget, t_runs, t_budget, race=None, **kw):
         w = list(race[4]) if len(race) > 4 else None
         q["race"] = dict(runs=race[0], budget_s=race[1], worlds=w)
         t["race"] = dict(runs=race[2], budget_s=race[3], worlds=w)
+    if prace:
+        # the plain worlds once more in a -race binary (real goroutines inside the bubble)
+        w = list(prace[4]) if len(prace) > 4 else None
+        q["prace"] = dict(runs=prace[0], budget_s=prace[1], worlds=w)
+        t["prace"] = dict(runs=prace[2], budget_s=prace[3], worlds=w)
     return {"quick": q, "thorough": t}
 
 PROPS = {
@@ -162,7 +167,7 @@ PROPS = {
     "C14": {
         "level": "exploration",
         "build": "plain",
-        "tiers": tiers(3000, 45, 60000, 600),
+        "tiers": tiers(3000, 45, 60000, 600, prace=(600, 60, 20000, 600)),
         "rule": "scripts from five families - value (literal, object, string, reads a binding), throwing, syntactically invalid, non-terminating "
                 "(while(true){Env.sleep(d)}, d from 1 us to 1 s, so that simulated time passes), slow-but-finishing (k sleeps totalling a quarter of the limit) - "
                 "placed in Location.RunJavascript, in a `code` condition (Location.Query) and in a rule action (ProcessEvent); timeout taken from "
@@ -170,14 +175,14 @@ PROPS = {
                 "Judged on the fake clock: a non-terminating script returns control within limit + one sleep + 1 s with an error on its node (never "
                 "(nil,nil)); throw/compile errors are errors; finishing scripts return their last expression and see their binding; a bubble in which "
                 "every goroutine is blocked is the hang verdict. Non-trivial: every run (each executes 2-6 scripts); distinct = distinct "
-                "(place, family, script, timeout mode, limit) tuples.",
+                "(place, family, script, timeout mode, limit) tuples. Plain race phase: the same worlds once more in a -race binary; here the goroutines (cron loops and callbacks, the JavaScript watchdog) are real and interleave as the Go runtime decides inside the fake-clock bubble, so a report is sound but need not repeat.",
         "components": {"real": REAL + ["otto interpreter and rulio's watchdog goroutine, on the fake clock"], "stub": STUB_COMMON},
         "assumptions": ["CPU-bound non-terminating scripts cannot be simulated in fake time (time does not advance while a goroutine runs); they are outside this check"],
     },
     "C16": {
         "level": "exploration",
         "build": "plain",
-        "tiers": tiers(12000, 60, 400000, 900),
+        "tiers": tiers(12000, 60, 400000, 900, prace=(1500, 90, 40000, 900)),
         "rule": "world memcron: the real cron.Cron with its own broadcaster on the fake clock; 4-16 operations at unique instants - Add (one-shot +d, !RFC3339, "
                 "recurring every 1/2/5 s and every minute) over 3 ids so that replacement happens, Rem, Suspend/Resume/Pause (local and broadcast); callbacks "
                 "record (id, instant) and 1 in 3 then sleeps 0.1-3.5 s (opens the window between 'popped' and 're-armed'); Timeline inspected after every "
@@ -185,7 +190,7 @@ PROPS = {
                 "one-shot at most once and exactly once if still registered, at most one fire per occurrence, no skipped occurrence while callbacks are shorter "
                 "than the period and nothing is suspended, never a fire for an occurrence due after removal, at most one pending entry per id. "
                 "World crolt: the Bolt-backed service (see its entry). Non-trivial: at least one job fired; distinct = distinct (schedule, callback "
-                "duration, number of fires, removed) tuples.",
+                "duration, number of fires, removed) tuples. Plain race phase: the same worlds once more in a -race binary; here the goroutines (cron loops and callbacks, the JavaScript watchdog) are real and interleave as the Go runtime decides inside the fake-clock bubble, so a report is sound but need not repeat.",
         "components": {"real": ["cron.Cron, cron.CronBroadcaster (real goroutines, fake timers)", "crolt.Cron over a real Bolt file", "gorhill/cronexpr"], "stub": ["fake clock of testing/synctest", "http.DefaultClient transport stub recording crolt deliveries"]},
         "assumptions": ["operations never coincide with a due instant (odd microsecond residues)", "cronexpr defines the occurrences of a schedule"],
     },
@@ -238,7 +243,7 @@ PROPS = {
     "C15": {
         "level": "exploration",
         "build": "plain",
-        "tiers": tiers(2500, 60, 60000, 900),
+        "tiers": tiers(2500, 60, 60000, 900, prace=(1200, 90, 30000, 900)),
         "rule": "2-3 locations under sys.System (cache TTL forever) with cron in {SimCron persistent, SimCron ephemeral, the real cron.InternalCron on the fake clock} "
                 "and state in {indexed, linear}; 4-14 operations - add a scheduled rule (+Ns, !RFC3339, every 2 s, every 5 s; optional ttl; optional deleteWith an "
                 "anchor fact), overwrite it by a scheduled rule / a when-rule / a plain fact, RemRule, delete the anchor (cascade), Clear, restart the engine over "
@@ -247,7 +252,7 @@ PROPS = {
                 "location/id/generation. At a checkpoint after every operation and every simulated second the number of executions of every rule generation "
                 "must equal the number of occurrences due while it was registered and live (completeness and soundness), no execution may appear in another "
                 "location, and a one-shot rule that has run is gone. Non-trivial: a scheduled rule executed; distinct = distinct (cron kind, schedule kind, "
-                "executions, removed) tuples.",
+                "executions, removed) tuples. Plain race phase: the same worlds once more in a -race binary; here the goroutines (cron loops and callbacks, the JavaScript watchdog) are real and interleave as the Go runtime decides inside the fake-clock bubble, so a report is sound but need not repeat.",
         "components": {"real": ["sys.System, cron.AddHooks, cron.InternalCron + cron.Cron (real, fake clock)", "core incl. RuleDone / trigger! dispatch, otto actions"], "stub": STUB_COMMON + ["SimCron (harness Cronner keyed by location+id; delivers ticks, duplicate and stale ticks)"]},
         "assumptions": ["after a restart every location is used again at once (an ephemeral cron can only re-register a location when it is loaded)",
                         "with an ephemeral cron a +d schedule counts from the re-registration"],
